@@ -670,12 +670,14 @@ func (v Value) opNeq(b Value) Value { return Bool(!v.Equals(b)) }
 
 func (v Value) Equals(b Value) bool {
 	switch {
+	// (values of different kinds meet when interface values are compared, e.g. switch v { case 1: case "a": }
+	// with v an any: they are unequal)
 	case v.t == TypeBool:
-		return v.num == b.num
+		return b.t == TypeBool && v.num == b.num
 	case (v.t & TypeFloat64) > 0:
-		return v.num == b.num
+		return (b.t&TypeFloat64) > 0 && v.num == b.num
 	case v.t == TypeString:
-		return v.value.(stringT) == b.value.(stringT)
+		return b.t == TypeString && v.value.(stringT) == b.value.(stringT)
 	case v.t.base() == TypeStruct, v.t == TypeFunc:
 		return (b.t == TypeNil && v.value == nil) || v.value == b.value
 	case v.t == TypeNil && b.t == TypeNil:
